@@ -714,3 +714,27 @@ def gen_far(rnd, full=False):
                     c["far_size"] = nkw
                     out.append(c)
     return out
+
+
+# ----------------------------------------------------------------- longest encodings (C07 reserve stage, C09 stage b2)
+def long_lines(rnd, full=False, n_quick=700):
+    """Lines that make the library emit its longest byte sequences: ALU/test/mov x memory shapes (incl. ones written number-first)
+    x size keywords x immediates of 1-8 bytes - also immediates the destination cannot hold: whatever the library does with them,
+    it must stay within its own 20-byte reserve and within every scratch buffer it uses."""
+    mems = ["[rax]", "[rax+rbx*8+0x11223344]", "[eax+ebx*8+0x11223344]", "[r8d+r9d*8-0x11223344]", "[4*r12+0x100]", "[0x11223344]", "[rsp+r13*2+0x80]",
+            "[0x12345678+r10d*8]", "[0x12345678+r10*8]", "[8+rax]", "[-0x80+r13+r9*4]", "[8*r10d+0x12345678]"]
+    imms = ["1", "0x7f", "0x80", "0x1122", "0x11223344", "0x80000000", "0x1122334455", "0x1122334455667788", "-1", "-0x1122334455", "0xffffffffffffffff"]
+    out = []
+    for mn in ALU + ["test", "mov"]:
+        for mm in mems:
+            for kw in ("", "byte ", "word ", "dword ", "qword "):
+                for im in imms:
+                    out.append("%s %s%s, %s" % (mn, kw, mm, im))
+    tail = ["mov r15, 0x1122334455667788", "imul r9, [eax+ebx*8+0x11223344], 0x11223344", "imul r9w, [eax+ebx*8+0x11223344], 0x1122", "shld [r8d+r9d*8+0x11223344], r10, 0x7f",
+            "shld word [r8d+r9d*8+0x11223344], r10w, 5", "vperm2i128 ymm9, ymm10, [r8d+r9d*8+0x11223344], 0xff", "vpaddb ymm9, ymm10, [r8d+r9d*8+0x11223344]", "push 0x11223344", "push 0x1122334455",
+            "jmp far qword [r8d+r9d*8+0x11223344]", "call qword [r8d+r9d*8+0x11223344]", "movq xmm9, [r8d+r9d*8+0x11223344]", "pmulhrsw xmm9, [r8d+r9d*8+0x11223344]", "rorx r9, [r8d+r9d*8+0x11223344], 63",
+            "bextr r9, [r8d+r9d*8+0x11223344], r10", "xbegin 0x11223344", "mov word [r8d+r9d*8+0x11223344], 0x1122", "nop11", "cmovnbe r9w, [r8d+r9d*8+0x11223344]", "movzx r9w, byte [r8d+r9d*8+0x11223344]",
+            "lea rax, [0x12345678+r10d*8]", "test qword [0x12345678+r10d*8], 0x1122334455667788", "imul r9, [0x12345678+r10d*8], 0x11223344"]
+    if not full:
+        out = rnd.sample(out, n_quick)
+    return out + tail
